@@ -263,7 +263,7 @@ func runCase(r *vf.Run, c caseSpec, dir string) {
 	defer os.RemoveAll(dir)
 	for rep := 0; rep < c.Reps; rep++ {
 		retry := c.Retry && rep == c.Reps-1 && env != nil
-		ctx, cancel := context.WithTimeout(context.Background(), 5*time.Minute)
+		ctx, cancel := context.WithTimeout(context.Background(), 20*time.Minute) // generous: the watchdog decides nothing
 		if !retry {
 			if env != nil {
 				os.RemoveAll(env.root)
@@ -324,7 +324,9 @@ func runConversion(ctx context.Context, r *vf.Run, c caseSpec, img *imageSrc, e 
 	panicked, pv, stack := vf.Recover(func() { newDesc, cerr = cf(ctx, e.cs, root) })
 	if os.Getenv("VERIF_C19_TIMING") != "" {
 		r.Logf("%s rep %d: converted in %v", c.desc(), rep, time.Since(tConv).Round(time.Millisecond))
-		defer func(t time.Time) { r.Logf("case %d rep %d: checked in %v", c.Idx, rep, time.Since(t).Round(time.Millisecond)) }(time.Now())
+		defer func(t time.Time) {
+			r.Logf("case %d rep %d: checked in %v", c.Idx, rep, time.Since(t).Round(time.Millisecond))
+		}(time.Now())
 	}
 	if panicked {
 		class, site, _ := crashSignatureText(fmt.Sprintf("panic: %v\n\ngoroutine 1 [running]:\n%s\n\n", pv, stack))
@@ -684,14 +686,13 @@ func checkLayer(r *vf.Run, c caseSpec, img *imageSrc, e *storeEnv, rec *callRec,
 	return true
 }
 
-// srcScenario names the class of the source layer (part of some violation keys).
+// srcScenario: part of the size/digest keys — only whether the converter found a dangling
+// writer under its ref (the Truncate(0) path) matters there.
 func srcScenario(c caseSpec, j int) string {
-	l := c.Layers[j]
-	s := l.Src
-	if l.Dangling {
-		s += "+dangling-writer"
+	if c.Layers[j].Dangling {
+		return "after-dangling-writer"
 	}
-	return s
+	return "fresh-ref"
 }
 
 // repoMounts: "the digest under which the blob mounts and verifies" — the snapshotter's own
